@@ -35,7 +35,26 @@ fn values() -> Vec<MV> {
         MV::Duration(90, 0),
         MV::Timestamp(1_700_000_000, 123_000_000, 3600),
         MV::Timestamp(-1, 0, 0),
+        named_keys_map(),
     ]
+}
+
+/// a map with one key spelled like each function under test, holding a value on which that
+/// function succeeds: the receiver of `m.f()` is the map, never its entry `m.f`
+fn named_keys_map() -> MV {
+    let mut e: Vec<(MK, MV)> = vec![];
+    for f in UNARY.iter().chain(BINARY.iter()).chain(["hf", "hf2"].iter()) {
+        let v = match *f {
+            "size" => MV::List(vec![MV::Int(1), MV::Int(2), MV::Int(3)]),
+            "string" => MV::Int(5),
+            "double" | "int" | "uint" => MV::s("12"),
+            "contains" | "startsWith" | "endsWith" | "matches" => MV::s("abc"),
+            "hf" | "hf2" => MV::Int(7),
+            _ => MV::Timestamp(1_700_000_000, 0, 0),
+        };
+        e.push((MK::Str(f.to_string()), v));
+    }
+    MV::Map(e)
 }
 
 const UNARY: [&str; 15] = ["size", "string", "double", "int", "uint", "getFullYear", "getMonth", "getDayOfYear", "getDayOfMonth", "getDate", "getDayOfWeek", "getHours", "getMinutes", "getSeconds", "getMilliseconds"];
@@ -100,6 +119,60 @@ fn part_builtins(run: &mut Run) {
                         &format!("C20|builtin|{}|{}-{}|method={}|global={}", f, x.kind(), a.kind(), ra.tag(), rb.tag()),
                         format!("x.{}(a) gave {} but {}(x, a) gave {} for x = {}, a = {}", f, ra.show(), f, rb.show(), x.show(), a.show()),
                         json!({"f": f, "x": x.show(), "a": a.show()}),
+                    );
+                }
+            }
+        }
+    }
+}
+
+/// host functions that return their receiver / their receiver and argument, over every value
+/// (in particular maps with a key spelled like the function)
+fn part_host_receiver(run: &mut Run) {
+    use cel_interpreter::extractors::This;
+    use cel_interpreter::ExecutionError;
+    use std::sync::Arc;
+    let vals = values();
+    let mut base = Context::default();
+    base.add_function("hf", |This(t): This<Value>| -> Result<Value, ExecutionError> { Ok(t) });
+    base.add_function("hf2", |This(t): This<Value>, a: Value| -> Result<Value, ExecutionError> { Ok(Value::List(Arc::new(vec![t, a]))) });
+    run.sub("host-receiver");
+    let progs: Vec<(&str, Program, Program)> = vec![
+        ("hf", Program::compile("x.hf()").unwrap(), Program::compile("hf(x)").unwrap()),
+        ("hf2", Program::compile("x.hf2(a)").unwrap(), Program::compile("hf2(x, a)").unwrap()),
+        ("hf-lit", Program::compile("{'hf': 7}.hf()").unwrap(), Program::compile("hf({'hf': 7})").unwrap()),
+        ("hf-nested", Program::compile("[x][0].hf()").unwrap(), Program::compile("hf([x][0])").unwrap()),
+    ];
+    for (name, pm, pg) in progs.iter() {
+        for x in vals.iter() {
+            for a in vals.iter() {
+                if *name != "hf2" && !std::ptr::eq(a, &vals[0]) {
+                    continue;
+                }
+                if !run.take() {
+                    continue;
+                }
+                let mut ctx = base.new_inner_scope();
+                ctx.add_variable_from_value("x", x.to_value());
+                ctx.add_variable_from_value("a", a.to_value());
+                let ra = subj::exec(pm, &ctx);
+                let rb = subj::exec(pg, &ctx);
+                run.trans(2);
+                run.validated();
+                run.nontrivial();
+                run.class(&format!("host-receiver:{}:{}:{}", name, x.kind(), ra.tag()), || json!({"f": name, "x": x.show(), "method": ra.show(), "global": rb.show()}));
+                // both styles agree, and the receiver the function saw is the value itself
+                let expect = match *name {
+                    "hf2" => MV::List(vec![x.clone(), a.clone()]),
+                    "hf-lit" => MV::Map(vec![(MK::Str("hf".into()), MV::Int(7))]),
+                    _ => x.clone(),
+                };
+                let ok = same(&ra, &rb) && matches!(&ra, Out::Val(v) if *v == MV::from_value(&expect.to_value()));
+                if !ok {
+                    run.fail(
+                        &format!("C20|host-receiver|{}|{}|method={}|global={}", name, x.kind(), ra.tag(), rb.tag()),
+                        format!("method style gave {} and global style gave {} for x = {} (the function returns its receiver; expected {})", ra.show(), rb.show(), x.show(), expect.show()),
+                        json!({"f": name, "x": x.show(), "a": a.show()}),
                     );
                 }
             }
@@ -354,5 +427,6 @@ pub fn part_hosts_for(run: &mut Run, prop: &str, panics_only: bool) {
 
 pub fn run(run: &mut Run) {
     part_builtins(run);
+    part_host_receiver(run);
     part_hosts_for(run, "C20", false);
 }
